@@ -220,3 +220,49 @@ def replay(pid, path):
         return 1
     print("no violation on replay (%s)" % kind)
     return 0
+
+
+def free_stress(res, pid, kind, shapes, timeout=60):
+    """free-running runs (no controller, real parallelism) of harness/progs/sync_stress_prog.c for one primitive;
+    shapes: list of (W, N, ROUNDS, NOISE).  Appends a violation (replay = the command line) on a failed oracle,
+    a crash or a hang."""
+    exe, err = build_prog("sync_stress_prog")
+    if err:
+        res.brk("build", "sync_stress_prog does not build: " + err[-400:])
+        return
+    rng = common.Splitmix(res.seed * 7919 + len(kind))
+    if res.tier == "thorough":
+        shapes = list(shapes) * 6
+    done = 0
+    for (w, n, rounds, noise) in shapes:
+        args = [kind, w, n, rounds, rng.below(1 << 30) + 1, noise]
+        rc, out, e = common.sh([exe] + [str(a) for a in args], timeout=timeout)
+        done += 1
+        if rc == 0 and "RESULT ok" in out:
+            continue
+        what = "hang (no result within %d s)" % timeout if rc == -9 else ((out.strip().splitlines() or [""])[-1] or "crash rc=%s %s" % (rc, e.strip()[-200:]))
+        rp = common.write_replay(pid, "stress.txt", "sync_stress_prog %s\n# free running (no controller): KIND W N ROUNDS PSEED NOISE\n%s\n" % (" ".join(map(str, args)), what))
+        res.violations.append((rp, True, "free-running %s stress (%d workers, %d participants, %d rounds, %d yielding bystanders): %s" % (kind, w, n, rounds, noise, what)))
+        break
+    res.add_cases(done, done, [], rule="%s/free running: sync_stress_prog %s W N ROUNDS PSEED NOISE on real workers without the controller (the property's oracle inside the program; hang = %d s timeout)" % (pid, kind, timeout))
+    res.notes["free_running_%s_runs" % kind] = done
+
+
+def replay_stress(pid, path):
+    """replay of a free-running stress command line (5 runs)"""
+    args = open(path).readline().split()
+    exe, err = build_prog(args[0])
+    if err:
+        print(err)
+        return 2
+    bad = 0
+    for _ in range(5):
+        rc, out, e = common.sh([exe] + args[1:], timeout=60)
+        print(out.strip() or ("rc=%s %s" % (rc, e.strip()[-200:])))
+        if rc != 0 or "RESULT ok" not in out:
+            bad += 1
+    if bad:
+        print("VIOLATION property=%s replay=%s" % (pid, path))
+        return 1
+    print("no violation on replay (5 free runs)")
+    return 0
